@@ -71,9 +71,10 @@ class BurstQueue(Module):
 
 class RWStub(Module):
     """in-order native stub with the real controller's pulse semantics; read data is free (memory contents arbitrary)"""
-    def __init__(self, port, depth=3, min_latency=2):
+    def __init__(self, port, depth=3, min_latency=2, free_wready=False):
         self.inputs = {}
         self.bads = {}
+        self.free_wready = free_wready
         stall = Signal(name_override="n_cmd_stall")
         go = Signal(name_override="n_resp_go")
         rdata = Signal(len(port.rdata.data), name_override="n_rdata")
@@ -83,7 +84,9 @@ class RWStub(Module):
         wes = [Signal() for _ in range(depth)]
         acc = Signal()
         resp = Signal()
-        self.comb += [port.cmd.ready.eq((level != depth) & ~stall), acc.eq(port.cmd.valid & port.cmd.ready),
+        acc_any = Signal()
+        self.comb += [port.cmd.ready.eq((level != depth) & ~stall), acc_any.eq(port.cmd.valid & port.cmd.ready),
+                      acc.eq(acc_any & (~port.cmd.we if free_wready else 1)),
                       resp.eq((level != 0) & (ages[0] >= min_latency) & go)]
         inc = lambda x: Mux(x >= min_latency, x, x + 1)
         for i in range(depth):
@@ -92,19 +95,33 @@ class RWStub(Module):
             self.sync += [If(resp, ages[i].eq(inc(nxt)), wes[i].eq(nwe), If(acc & (level == i + 1), ages[i].eq(1), wes[i].eq(port.cmd.we))
                              ).Else(ages[i].eq(inc(ages[i])), If(acc & (level == i), ages[i].eq(1), wes[i].eq(port.cmd.we)))]
         self.sync += level.eq(level + acc - resp)
-        self.acc, self.level = acc, level
+        self.acc, self.level = acc_any, level
         self.resp_w = Signal()
         self.resp_r = Signal()
-        self.comb += [self.resp_w.eq(resp & wes[0]), self.resp_r.eq(resp & ~wes[0]),
-                      port.wdata.ready.eq(self.resp_w), port.rdata.valid.eq(self.resp_r), port.rdata.data.eq(rdata)]
         bad = _bad_adder(self, self.bads)
-        bad("memory_takes_write_data_but_bridge_offers_none", self.resp_w & ~port.wdata.valid)
+        if free_wready:
+            # the native side may pulse wdata.ready at ANY time (delayed or unrelated pulses, which the bridge says it tolerates):
+            # a write-data beat is handed to the memory when valid & ready; only reads are queued for in-order responses
+            wfree = Signal(name_override="n_wdata_ready")
+            self.inputs["n_wdata_ready"] = wfree
+            self.comb += [self.resp_w.eq(port.wdata.valid & wfree), self.resp_r.eq(resp), port.wdata.ready.eq(wfree),
+                          port.rdata.valid.eq(self.resp_r), port.rdata.data.eq(rdata)]
+            owed = Signal(4)
+            self.sync += owed.eq(owed + (acc_any & port.cmd.we) - self.resp_w)
+            bad("write_data_beat_handed_over_without_an_accepted_write_command", self.resp_w & (owed == 0))
+            # the real controller never strobes write data in the cycle it accepts the command (write latency >= 1)
+            self.same_cycle_ok = Signal()
+            self.comb += self.same_cycle_ok.eq(~(wfree & acc_any & port.cmd.we))
+        else:
+            self.comb += [self.resp_w.eq(resp & wes[0]), self.resp_r.eq(resp & ~wes[0]),
+                          port.wdata.ready.eq(self.resp_w), port.rdata.valid.eq(self.resp_r), port.rdata.data.eq(rdata)]
+            bad("memory_takes_write_data_but_bridge_offers_none", self.resp_w & ~port.wdata.valid)
         bad("memory_returns_read_data_but_bridge_not_ready_word_lost", self.resp_r & ~port.rdata.ready)
         # (the bridge re-arbitrates its native command between the read and write paths before it is accepted; the real crossbar
         #  tolerates that, and it is not part of this property)
 
 
-def axi_bench(name, rmw=False, base=0, wdepth=4, rdepth=4, dw=32, aw=8, idw=2, sizes=(2,), qdepth=QD):
+def axi_bench(name, rmw=False, base=0, wdepth=4, rdepth=4, dw=32, aw=8, idw=2, sizes=(2,), qdepth=QD, free_wready=False):
     from litedram.frontend.axi import LiteDRAMAXIPort, LiteDRAMAXI2Native
     ashift = log2_int(dw // 8)
     axi = LiteDRAMAXIPort(data_width=dw, address_width=aw, id_width=idw)
@@ -115,13 +132,14 @@ def axi_bench(name, rmw=False, base=0, wdepth=4, rdepth=4, dw=32, aw=8, idw=2, s
     top = Top()
     top.submodules.dut = LiteDRAMAXI2Native(axi, port, w_buffer_depth=wdepth, r_buffer_depth=rdepth, base_address=base,
                                             with_read_modify_write=rmw)
-    top.submodules.stub = stub = RWStub(port)
+    top.submodules.stub = stub = RWStub(port, free_wready=free_wready)
+    _stub_assumes = {"no_write_data_strobe_in_the_cycle_its_command_is_accepted": stub.same_cycle_ok} if free_wready else {}
     inputs = dict(stub.inputs)
     for ch, names in (("aw", ["valid", "addr", "burst", "len", "size", "id"]), ("ar", ["valid", "addr", "burst", "len", "size", "id"]),
                       ("w", ["valid", "data", "strb", "last"]), ("b", ["ready"]), ("r", ["ready"])):
         for n in names:
             inputs["%s_%s" % (ch, n)] = getattr(getattr(axi, ch), n)
-    assumes = {}
+    assumes = dict(_stub_assumes)
     bads = dict(stub.bads)
     bad = _bad_adder(top, bads)
 
@@ -395,6 +413,7 @@ CONFIGS = {
     "axi_rmw_base64": (dict(rmw=True, base=64), 14, 20, "qt"),
     # more write bursts outstanding than the ID FIFO is deep (see the known finding); only the ID/response pairing monitors are asked
     "manyoutstanding_axi_d2": (dict(wdepth=2, rdepth=2, qdepth=5), 14, 18, "qt"),
+    "freewready_axi_d2": (dict(wdepth=2, rdepth=2, free_wready=True), 13, 18, "qt"),
     "axi_d4": (dict(), 0, 22, "t"),
     "axi_d16": (dict(wdepth=16, rdepth=16), 0, 20, "t"),
     "axi_rmw_d2": (dict(rmw=True, wdepth=2, rdepth=2), 0, 20, "t"),
@@ -409,6 +428,8 @@ def run(ctx):
                "with LAST on the final beat; at most 3 bursts outstanding per direction; B/R ready free")
     ctx.assume("benches other than 'manyoutstanding_*': at most 2 bursts outstanding per direction (= the smallest buffer depth used); "
                "'manyoutstanding_*' allows 4 with buffer depth 2 and exposes the known finding on the write ID FIFO")
+    ctx.assume("'freewready_*' bench: the native side may pulse wdata.ready at any time, also with no write command outstanding "
+               "(the bridge gates its data on accepted commands); a beat counts as written when valid & ready")
     ctx.assume("native side: in-order memory stub with the real crossbar's pulse semantics, arbitrary stalls, latency >= 2, <= 3 "
                "commands queued; read data arbitrary")
     ctx.assume("bytes_* benches (byte-level memory semantics): single-beat full-width INCR accesses, <= 2 writes without B and <= 2 reads "
